@@ -177,9 +177,17 @@ def cmpErrCore (vars : Vars) (path : Bytes) (o : Op) (right : Bytes) : Option Er
     | some (.ins v k) => if insCompareErr k v sub o right then some .parse else none
     | _ => none
 
+/-- The path `Ctx.cmp` compares: inside counter loops the square-bracket index of the LEFT operand is substituted
+    first, as `get` and `cmpLC` do (repair: `{% if a[i].f > 0 %}` compared the literal path `a[i]` and was always false). -/
+def cmpPath (vars : Vars) (qb : Bool) (path : Bytes) : Option Bytes :=
+  if qb then replaceQB vars path else some path
+
 /-- `Ctx.cmp`: the error is reset (or set by the inspector), then the comparison. -/
 def Ctx.cmp (c : Ctx) (path : Bytes) (o : Op) (right : Bytes) : Bool × Ctx :=
-  (cmpCore c.vars path o right, { c with err := cmpErrCore c.vars path o right })
+  (((cmpPath c.vars c.chQB path).map (fun p => cmpCore c.vars p o right)).getD false,
+   { c with err := match cmpPath c.vars c.chQB path with
+      | none => some .unknownType                       -- the index could not be written: `ctx.Err`, nil path
+      | some p => cmpErrCore c.vars p o right })
 
 /-- What `Ctx.cmpLC` computes: `len(x) op n` / `cap(x) op n`. -/
 def cmpLCCore (vars : Vars) (qb : Bool) (path : Bytes) (o : Op) (right : Bytes) : Bool :=
